@@ -171,3 +171,84 @@ func verifH_C03_reconnect_ids() {
 	verifAssert(callsA == 1, "and nobody else's")
 	verifReach("end")
 }
+
+// C03_ack_chain: a chained request / response: the acknowledgement callback of one emit emits again with an ack function
+// of its own, on the same socket, server side and client side. The first reply reaches the first callback, nothing
+// deadlocks inside it (the inner emit registers its ack handler), and the second reply then reaches the second
+// callback - each exactly once, with its own argument.
+//
+//verif:unwind 12
+//verif:rand concrete
+func verifH_C03_ack_chain() {
+	onServer := verifAnyBool()
+	first, second := 0, 0
+	a1, a2 := "", ""
+	var ids []uint64
+	var onAck func(id uint64, val string)
+	if onServer {
+		w := verifServerWorld("/")
+		s := w.verifConnected("/")["/"]
+		s.Emit("one", func(arg string) {
+			first++
+			a1 = arg
+			s.Emit("two", func(arg string) {
+				second++
+				a2 = arg
+			})
+		})
+		onAck = func(id uint64, val string) {
+			s.onAck(&parser.PacketHeader{Type: parser.PacketTypeAck, Namespace: "/", ID: &id}, verifReplyDecode(val))
+		}
+		for _, e := range w.encoded {
+			if e.typ == parser.PacketTypeEvent && e.id != nil {
+				ids = append(ids, *e.id)
+			}
+		}
+		verifAssert(len(ids) == 1, "the first emit carries an ack id")
+		onAck(ids[0], "r1")
+		ids = nil
+		for _, e := range w.encoded {
+			if e.typ == parser.PacketTypeEvent && e.id != nil {
+				ids = append(ids, *e.id)
+			}
+		}
+	} else {
+		var log []verifEncoded
+		_, cl := verifClientWorld(verifRecParser{log: &log}, "/")
+		s := cl["/"]
+		s.Emit("one", func(arg string) {
+			first++
+			a1 = arg
+			s.Emit("two", func(arg string) {
+				second++
+				a2 = arg
+			})
+		})
+		onAck = func(id uint64, val string) {
+			s.onAck(&parser.PacketHeader{Type: parser.PacketTypeAck, Namespace: "/", ID: &id}, verifReplyDecode(val))
+		}
+		for _, e := range log {
+			if e.typ == parser.PacketTypeEvent && e.id != nil {
+				ids = append(ids, *e.id)
+			}
+		}
+		verifAssert(len(ids) == 1, "the first emit carries an ack id")
+		onAck(ids[0], "r1")
+		ids = nil
+		for _, e := range log {
+			if e.typ == parser.PacketTypeEvent && e.id != nil {
+				ids = append(ids, *e.id)
+			}
+		}
+	}
+	verifWaitQuiescent()
+	verifAssert(first == 1 && a1 == "r1", "the first reply reaches the first callback, once")
+	verifAssert(len(ids) == 2, "the callback's own emit went out with an ack id of its own")
+	verifAssert(verifHeldLocks() == 0 && verifBlocked() == 0, "no mutex is held and nothing is blocked after a callback that emitted again")
+	if len(ids) == 2 {
+		onAck(ids[1], "r2")
+		verifWaitQuiescent()
+		verifAssert(second == 1 && a2 == "r2" && first == 1, "the second reply reaches the second callback, once")
+	}
+	verifReach("end")
+}
